@@ -99,7 +99,7 @@
         std::mem::forget(r);
     }
 
-// @h id=H8.2-N$n prop=C08 rep="n:1-2" quick="1-2" cap=1500 mem=14 unwind=12 checks=std bounds="N=$n entries; every raw varint value in every column (ids/offset codes: any u64; run lengths/lengths: any 35-bit value in 5 bytes), max-width layout"
+// @h id=H8.2-N$n prop=C08 rep="n:1-2" quick="1-1" cap=1500 mem=14 unwind=12 checks=std bounds="N=$n entries; every raw varint value in every column (ids/offset codes: any u64; run lengths/lengths: any 35-bit value in 5 bytes), max-width layout"
     /// structured-hostile directory: arbitrary raw column values (id deltas summing past 2^64, offset code 0 anywhere, length 0 or >= 2^32, ...) never crash the parser
     #[kani::proof]
     fn h8_2_hostile_columns_n$n() {
